@@ -398,6 +398,9 @@ class VersionAdvance(Oracle):
             if after_main != before_main:
                 fails.append("commit failed (%s) but the head moved from %s to %s" % (resp.split(" ")[0], before_main, after_main))
             now = snapshot(os.path.join(ctx.dir, "root"), exclude=("extensions/rocfl-staging",))
+            # the `extensions` directory is the parent of the internal staging area and appears with it
+            now.pop("extensions", None)
+            self.main.pop("extensions", None)
             if now != self.main:
                 fails.append("commit failed (%s) but the main repository changed: %s" % (
                     resp.split(" ")[0], sorted(set(now.items()) ^ set(self.main.items()))[:4]))
@@ -707,11 +710,21 @@ class Listing(Oracle):
     def __init__(self):
         self.checks = 0
         self.committed = {}     # id -> head number
-        self.staged = set()
+        self.staged_by = {0: set()}     # every client has its own staging area
+        self.client = 0
+
+    @property
+    def staged(self):
+        return self.staged_by.setdefault(self.client, set())
 
     def after(self, ctx, st, resp):
         oid = oid_of(st)
         op = st["op"]
+        if op == "client":
+            self.client = int(st["h"].split(" ")[1])
+            return []
+        if op == "reset":
+            self.staged_by, self.client = {0: set()}, 0
         if st["kind"] == "mut" and oid:
             o = resp.split(" ")[0]
             if op == "new":
@@ -732,7 +745,9 @@ class Listing(Oracle):
                     self.staged.discard(oid)
             elif op in ("cpx", "mvx", "cpi", "mvi", "rm"):
                 # get_or_created_staged_inventory runs before anything can fail for another reason
-                if oid in self.committed and not (o == "err:notFound" and oid not in self.staged and False):
+                # … except that the staged version cannot be created at all once the zero-padding width is exhausted
+                # (`VersionNum::next` refuses: illegalState)
+                if oid in self.committed and not (o == "err:illegalState" and oid not in self.staged):
                     self.staged.add(oid)
         if op in ("ls", "lsstaged"):
             # a listing requested by the history itself (any glob syntax): exactly the matching ids
